@@ -102,9 +102,13 @@ Inductive out :=
 (* per-URI answers of net/url and html/template, recorded by the driver:
    u_canon = Some (q, f): url.Parse succeeds; q / f = canonical rendering of the
    URI as it shows in a query-mode / fragment-mode Location once the response
-   parameters are removed; u_form = the form action a browser sees (None = blocked) *)
+   parameters are removed; u_form = the form action a browser sees (None = blocked).
+   u_loop = what the LIBRARY's HTTPLoopbackOrLocalhost answers (the handlers follow it);
+   u_truth = the ground truth of "is an http(s) loopback address", decided independently of the
+   library: Some (Path, RawQuery) iff the scheme is http / https and the host is exactly
+   `localhost` or an IP literal in 127.0.0.0/8 or ::1 (the property predicate follows it) *)
 Record uinfo := { u_loop : option (string * string); u_canon : option (string * string);
-                  u_form : option string }.
+                  u_form : option string; u_truth : option (string * string) }.
 
 Definition use_fragment (rt mode : string) : bool :=
   if String.eqb mode "query" then false
